@@ -393,6 +393,20 @@ def same(a, b):
     return canon(a) == canon(b) or matches(a, b)
 
 
+def writable_session(rec, path, how):
+    """The ways a user gets a writable session on a stored file: asked for at construction (three times out of four), or a
+    workspace object first made for reading and then re-opened / elevated for writing."""
+    from geoh5py.workspace import Workspace
+
+    if how == 3:
+        ws = Workspace(path, mode="r")
+        ws.close()
+        ws.open(mode="r+")
+        rec.see("sessions-reopened-for-writing")
+        return ws
+    return Workspace(path, mode="r+")
+
+
 def safe_get(subject, attr):
     try:
         return getattr(subject, attr)
@@ -506,7 +520,7 @@ def run_case(case, rec):
             if n_attr and kind == "concat":  # concatenated storage is keyed by names: judge every attribute from a pristine file
                 uid = rebuild()
             for i in range(case["nvalues"]):
-                ws = Workspace(path, mode="r+")
+                ws = writable_session(rec, path, (i + 2 * n_attr) % 4)
                 subject = fetch(ws, kind, uid)
                 vals = HEADER_VALUES[attr] if kind == "header" else values_for(subject, attr, rng, case["nvalues"])
                 if not vals or i >= len(vals):
